@@ -126,7 +126,7 @@ func TestC08(t *testing.T) {
 			ev := r.Ev
 			pri, alt := cpus()
 			var edgeSteps, steps, e1 int64
-			r.Rapid("native-lockstep", rig.Pick(15000, 150000), func(t *rapid.T) {
+			r.Rapid("native-lockstep", rig.Pick(50000, 250000), func(t *rapid.T) {
 				d := rig.RapidDrawer{T: t}
 				syn := rig.NewSynth(d, nil)
 				syn.Top = true
@@ -154,7 +154,7 @@ func TestC08(t *testing.T) {
 				steps += int64(len(st.Steps))
 				ev.Case(nt, h, func() interface{} { return c })
 			})
-			r.Rapid("any-mode", rig.Pick(15000, 150000), func(t *rapid.T) {
+			r.Rapid("any-mode", rig.Pick(50000, 250000), func(t *rapid.T) {
 				d := rig.RapidDrawer{T: t}
 				syn := rig.NewSynth(d, nil)
 				syn.Top = true
